@@ -25,6 +25,14 @@ CLAIMED = {
             "(str.split/partition, int(), IPv4Address acceptance modelled); model = implementation checked on the enumerated grammar and random edits",
             "ASCII input; os.path.exists and IPv6Address are oracle inputs; CPython int()/ipaddress modelled and validated by correspondence",
             "Coq proof (split/join lemmas, digit-string induction) + differential correspondence via extraction"),
+    "C01": ("Coq theorem, generic in the handler family and instantiated at the model of rfb.RFBClient: for every byte stream and every "
+            "chunking, feeding the chunks equals feeding their concatenation (events, end state, residual buffer, handler count), by "
+            "induction over the chunk list from a two-way splitting lemma for the expect loop; model = implementation compared on "
+            "generated sessions under many chunkings incl. all 2^(k-1) chunkings of the last k bytes, and the implementation is compared "
+            "with its own unchunked run; VMware workaround checked at message boundaries",
+            "banner handling (_handleInitial) is modelled and compared but its chunk-invariance lemma is not yet in Properties/C01.v; "
+            "Twisted transport trusted; VMware mid-message match is a recorded known finding",
+            "Coq proof (induction over chunk lists, generic expect-engine lemmas) + regenerated formats/expect graph + differential correspondence"),
 }
 NOT_YET = "check not built yet in this session (planned Coq model in DESIGN.md §3); not claimed"
 
